@@ -182,9 +182,9 @@ theorem candAt_succ (i : Nat) (ident : Str) :
     candAt (i + 1) ident = candAt i (lengthFix (bump (lower ident))) := by
   simp [candAt, iter, step]
 
-theorem conflictsFix_unfinished (others : List Sib) (fuel : Nat) (ident : Str)
-    (h : (conflictsFix others fuel ident).2 = false) :
-    ∀ i, i ≤ fuel → conflictsGood (candAt i ident) others = false := by
+theorem conflictsFix_unfinished (bits : List Nat) (others : List Sib) (fuel : Nat) (ident : Str)
+    (h : (conflictsFix bits others fuel ident).2 = false) :
+    ∀ i, i ≤ fuel → conflictsGood bits (candAt i ident) others = false := by
   induction fuel generalizing ident with
   | zero =>
     intro i hi
@@ -200,48 +200,90 @@ theorem conflictsFix_unfinished (others : List Sib) (fuel : Nat) (ident : Str)
       | zero => simpa [candAt, iter] using hbad
       | succ i => rw [candAt_succ]; exact ih _ h i (by omega)
 
-/-- every string a candidate can conflict with -/
-def conflictSet (others : List Sib) : List Str :=
-  others.flatMap fun e => lower e.name :: (match e.ident with | none => [] | some i => [lower i])
+/-! ### written forms -/
 
-theorem conflictSet_length (others : List Sib) : (conflictSet others).length ≤ 2 * others.length := by
-  induction others with
-  | nil => simp [conflictSet]
-  | cons e es ih =>
-    have hc : conflictSet (e :: es) =
-        (lower e.name :: (match e.ident with | none => [] | some i => [lower i])) ++ conflictSet es := by
-      simp [conflictSet]
-    rw [hc]
-    cases e.ident <;> simp only [List.length_append, List.length_cons, List.length_nil] <;> omega
+/-- `_<index>_` -/
+def bitSuffix (i : Nat) : Str := ['_'] ++ Nat.toDigits 10 i ++ ['_']
 
-theorem mem_conflictSet_of_bad {c : Str} {others : List Sib} (h : conflictsGood c others = false) :
-    c ∈ conflictSet others := by
-  unfold conflictsGood at h
-  rw [List.all_eq_false] at h
-  obtain ⟨e, he, hbad⟩ := h
+theorem bitIdent_eq (id : Str) (i : Nat) : bitIdent id i = id ++ bitSuffix i := by
+  simp [bitIdent, bitSuffix]
+
+/-- the identifier a per-wire form was made from -/
+def unbit (i : Nat) (f : Str) : Str := f.take (f.length - (bitSuffix i).length)
+
+theorem unbit_bitIdent (c : Str) (i : Nat) : unbit i (bitIdent c i) = c := by
+  simp [unbit, bitIdent_eq]
+
+theorem noUpper_bitSuffix (i : Nat) : NoUpper (bitSuffix i) := by
+  unfold bitSuffix
+  refine NoUpper.append (NoUpper.append ?_ (noUpper_of_digits (digits_toDigits i).2)) ?_ <;>
+    (intro c hc; simp at hc; subst hc; decide)
+
+theorem lower_append (s t : Str) : lower (s ++ t) = lower s ++ lower t := by simp [lower]
+
+theorem lower_bitIdent (id : Str) (i : Nat) : lower (bitIdent id i) = bitIdent (lower id) i := by
+  rw [bitIdent_eq, bitIdent_eq, lower_append, lower_of_noUpper (noUpper_bitSuffix i)]
+
+theorem forms_lower (bits : List Nat) (id : Str) : forms bits (lower id) = (forms bits id).map lower := by
+  simp [forms, lower_bitIdent, Function.comp_def]
+
+theorem bitIdent_inj_index {id : Str} {i j : Nat} (h : bitIdent id i = bitIdent id j) : i = j := by
+  rw [bitIdent_eq, bitIdent_eq] at h
+  have h1 := List.append_cancel_left h
+  simp only [bitSuffix, List.cons_append, List.nil_append, List.cons.injEq, true_and] at h1
+  have h2 : Nat.toDigits 10 i = Nat.toDigits 10 j := List.append_cancel_right h1
+  have := congrArg (fun d => Nat.ofDigitChars 10 d 0) h2
+  simpa using this
+
+/-- every candidate that could conflict: for each string of the siblings, the string itself and
+    what it would be a per-wire form of -/
+def conflictSet (bits : List Nat) (others : List Sib) : List Str :=
+  (others.flatMap theirForms).flatMap fun f => f :: bits.map (fun i => unbit i f)
+
+theorem conflictSet_length (bits : List Nat) (others : List Sib) :
+    (conflictSet bits others).length + 1 = fuelFor bits others := by
+  unfold conflictSet fuelFor
+  generalize others.flatMap theirForms = F
+  induction F with
+  | nil => simp
+  | cons f fs ih =>
+    simp only [List.flatMap_cons, List.length_append, List.length_cons, List.length_map] at ih ⊢
+    rw [Nat.add_mul]
+    omega
+
+theorem conflictsGood_iff (bits : List Nat) (c : Str) (others : List Sib) :
+    conflictsGood bits c others = true ↔
+      ∀ e ∈ others, ∀ m ∈ forms bits c, m ∉ theirForms e := by
+  simp [conflictsGood, List.all_eq_true]
+
+theorem mem_conflictSet_of_bad {bits : List Nat} {c : Str} {others : List Sib}
+    (h : conflictsGood bits c others = false) : c ∈ conflictSet bits others := by
+  have : ¬ (∀ e ∈ others, ∀ m ∈ forms bits c, m ∉ theirForms e) := by
+    rw [← conflictsGood_iff, h]; simp
+  simp only [Classical.not_forall, Decidable.not_not] at this
+  obtain ⟨e, he, m, hm, hme⟩ := this
   simp only [conflictSet, List.mem_flatMap]
-  refine ⟨e, he, ?_⟩
-  cases hi : e.ident with
-  | none => simp [hi] at hbad ⊢; exact hbad.symm
-  | some i =>
-    simp only [hi, Bool.and_eq_true, Bool.not_eq_true', beq_eq_false_iff_ne, ne_eq, not_and, Decidable.not_not] at hbad
-    simp only [List.mem_cons, List.not_mem_nil, or_false]
-    by_cases h1 : lower e.name = c
-    · exact Or.inl h1.symm
-    · exact Or.inr (hbad h1).symm
+  refine ⟨m, ⟨e, he, hme⟩, ?_⟩
+  simp only [forms, List.mem_cons, List.mem_map] at hm
+  rcases hm with rfl | ⟨i, hi, rfl⟩
+  · simp
+  · simp only [List.mem_cons, List.mem_map]
+    exact Or.inr ⟨i, hi, unbit_bitIdent c i⟩
 
-/-- how many siblings the termination theorem allows (any bound `B` with `4B + 2 ≤ 10^248` works) -/
+/-- how large a scope the termination theorem allows: the fuel (number of strings a candidate can
+    conflict with, plus one) must stay below this (any `B` with `2B ≤ 10^248` works) -/
 def sibBound : Nat := 10 ^ 200
 
-theorem conflictsFix_finished_aux (others : List Sib) (fuel : Nat) (ident : Str)
-    (hg : Good ident) (hfuel : 2 * others.length ≤ fuel) (hb : others.length < sibBound) :
-    (conflictsFix others fuel ident).2 = true := by
-  cases hfin : (conflictsFix others fuel ident).2 with
+theorem conflictsFix_finished_aux (bits : List Nat) (others : List Sib) (fuel : Nat) (ident : Str)
+    (hg : Good ident) (hfuel : fuelFor bits others ≤ fuel + 1) (hb : fuelFor bits others ≤ sibBound) :
+    (conflictsFix bits others fuel ident).2 = true := by
+  cases hfin : (conflictsFix bits others fuel ident).2 with
   | true => rfl
   | false =>
     exfalso
-    have hbad := conflictsFix_unfinished others fuel ident hfin
-    let n := 2 * others.length + 1
+    have hbad := conflictsFix_unfinished bits others fuel ident hfin
+    have hlen := conflictSet_length bits others
+    let n := fuelFor bits others
     let cands := (List.range n).map fun i => candAt i ident
     have hc : Cand (lower ident) := Cand.of_good hg
     have hnodup : cands.Nodup := by
@@ -252,21 +294,20 @@ theorem conflictsFix_finished_aux (others : List Sib) (fuel : Nat) (ident : Str)
       apply iter_ne hc hab
       simp only [keyMax, sibBound, n] at hb hb' ⊢
       omega
-    have hsub : cands ⊆ conflictSet others := by
+    have hsub : cands ⊆ conflictSet bits others := by
       intro c hc'
       simp only [cands, List.mem_map, List.mem_range] at hc'
       obtain ⟨i, hi, rfl⟩ := hc'
       exact mem_conflictSet_of_bad (hbad i (by simp only [n] at hi; omega))
     have h1 := hnodup.length_le_of_subset hsub
-    have h2 := conflictSet_length others
     simp only [cands, List.length_map, List.length_range, n] at h1
     omega
 
 /-! ### freshness and legality of the result -/
 
-theorem conflictsFix_fresh (others : List Sib) (fuel : Nat) (ident : Str)
-    (h : (conflictsFix others fuel ident).2 = true) :
-    conflictsGood (lower (conflictsFix others fuel ident).1) others = true := by
+theorem conflictsFix_fresh (bits : List Nat) (others : List Sib) (fuel : Nat) (ident : Str)
+    (h : (conflictsFix bits others fuel ident).2 = true) :
+    conflictsGood bits (lower (conflictsFix bits others fuel ident).1) others = true := by
   induction fuel generalizing ident with
   | zero => simpa [conflictsFix] using h
   | succ fuel ih =>
@@ -277,8 +318,8 @@ theorem conflictsFix_fresh (others : List Sib) (fuel : Nat) (ident : Str)
       rw [if_neg hbad] at h
       exact ih _ h
 
-theorem conflictsFix_good (others : List Sib) (fuel : Nat) (ident : Str) (hg : Good ident) :
-    Good (conflictsFix others fuel ident).1 := by
+theorem conflictsFix_good (bits : List Nat) (others : List Sib) (fuel : Nat) (ident : Str) (hg : Good ident) :
+    Good (conflictsFix bits others fuel ident).1 := by
   induction fuel generalizing ident with
   | zero => simpa [conflictsFix] using hg
   | succ fuel ih =>
@@ -286,27 +327,5 @@ theorem conflictsFix_good (others : List Sib) (fuel : Nat) (ident : Str) (hg : G
     split
     · exact hg
     · exact ih _ (Good_lengthFix hg.lower.1.bump)
-
-theorem conflictsGood_iff (c : Str) (others : List Sib) :
-    conflictsGood c others = true ↔
-      ∀ e ∈ others, lower e.name ≠ c ∧ ∀ i, e.ident = some i → lower i ≠ c := by
-  unfold conflictsGood
-  rw [List.all_eq_true]
-  constructor
-  · intro h e he
-    have := h e he
-    simp only [Bool.and_eq_true, Bool.not_eq_true', beq_eq_false_iff_ne] at this
-    refine ⟨this.1, ?_⟩
-    intro i hi
-    have h2 := this.2
-    rw [hi] at h2
-    simpa using h2
-  · intro h e he
-    obtain ⟨h1, h2⟩ := h e he
-    simp only [Bool.and_eq_true, Bool.not_eq_true', beq_eq_false_iff_ne]
-    refine ⟨h1, ?_⟩
-    cases hi : e.ident with
-    | none => rfl
-    | some i => simpa using h2 i hi
 
 end Spydr.Names
